@@ -40,7 +40,7 @@ PROPS['C06'] = dict(
 )
 PROPS['C15'] = dict(
   level='proof',
-  verus=[dict(unit='peephole', min_functions=18), dict(unit='bytecode', min_functions=5), dict(unit='lines', min_functions=1), dict(unit='pipeline', min_functions=1), dict(unit='parserd', min_functions=5), dict(unit='resolverd', min_functions=2), dict(unit='scannerd', min_functions=9), dict(unit='narrowc', min_functions=4), dict(unit='limitsc', min_functions=4), dict(unit='resolvevar', min_functions=1), dict(unit='resolvestmt', min_functions=10), _findings_variant(['apply_stack_effects']), dict(unit='dispatchr', min_functions=3)],
+  verus=[dict(unit='peephole', min_functions=18), dict(unit='bytecode', min_functions=5), dict(unit='lines', min_functions=1), dict(unit='pipeline', min_functions=1), dict(unit='parserd', min_functions=5), dict(unit='resolverd', min_functions=2), dict(unit='scannerd', min_functions=9), dict(unit='narrowc', min_functions=4), dict(unit='limitsc', min_functions=4), dict(unit='resolvevar', min_functions=1), dict(unit='resolvestmt', min_functions=10), _findings_variant(['apply_stack_effects']), dict(unit='dispatchr', min_functions=3), dict(unit='blockr', min_functions=2)],
   not_decided=['Compiler totality, the scanner keyword trie (identifier_type: str slicing) and its constructor, all of the resolver except for_ / while_ (resolverd unit), all of the parser except its loop-depth bookkeeping (parserd unit: loop_, break_, continue_, function, lambda, fun_body); REPL continuation'],
 )
 PROPS['C18'] = dict(
@@ -67,7 +67,7 @@ PROPS['C01'] = dict(
 )
 PROPS['C02'] = dict(
   level='proof',
-  verus=[dict(unit='ops', min_functions=8), dict(unit='captures', min_functions=3), dict(unit='resolverd', min_functions=1), dict(unit='catchd', min_functions=1), dict(unit='limitsc', min_functions=2), dict(unit='resolvevar', min_functions=9), dict(unit='varcomp', min_functions=5), dict(unit='resolvestmt', min_functions=5), dict(unit='funcc', min_functions=1), dict(unit='forc', min_functions=1), dict(unit='dispatchr', min_functions=3)],
+  verus=[dict(unit='ops', min_functions=8), dict(unit='captures', min_functions=3), dict(unit='resolverd', min_functions=1), dict(unit='catchd', min_functions=1), dict(unit='limitsc', min_functions=2), dict(unit='resolvevar', min_functions=9), dict(unit='varcomp', min_functions=5), dict(unit='resolvestmt', min_functions=5), dict(unit='funcc', min_functions=1), dict(unit='forc', min_functions=1), dict(unit='dispatchr', min_functions=3), dict(unit='blockr', min_functions=2)],
   explanation='the VM half only: the box / capture handlers and op_closure; the resolver and compiler half of the capture protocol is outside reach',
   not_decided=['which variables the resolver marks as captured, which CaptureIndex operands the compiler emits (resolve_capture / add_capture), fresh variables per loop iteration / call as a COMPILER property (EmptyBox / Box placement), name resolution (innermost declaration)',
                'A-shape preconditions of the handlers: a Local operand names a frame slot that holds a box, an Enclosing operand an existing capture; A-enc: the capture operand decodes to what the encoder wrote'],
